@@ -116,7 +116,7 @@ pub proof fn lemma_esc_plain(s: Seq<u8>, n: int)
             assert((c >> 4) < 16 && (c & 0xF) < 16 && (c >> 4) == c / 16 && (c & 0xF) == c % 16) by(bit_vector);
             if output is None { lemma_esc_plain(b, it.index@ as int); }
         }
-//@ insert before "if let Some(output) = output {"
+//@ insert loop-after 1
     proof {
         assert(b.take(b.len() as int) =~= b);
         if output is None { lemma_esc_plain(b, b.len() as int); }
@@ -175,7 +175,7 @@ pub proof fn lemma_dn_esc_plain(v: Seq<u8>, n: nat)
             assert((c >> 4) < 16 && (c & 0xF) < 16 && (c >> 4) == c / 16 && (c & 0xF) == c % 16) by(bit_vector);
             if output is None { lemma_dn_esc_plain(b, it.index@ as nat); }
         }
-//@ insert before "if let Some(output) = output {"
+//@ insert loop-after 1
     proof {
         assert(b.take(b.len() as int) =~= b);
         if output is None { lemma_dn_esc_plain(b, b.len()); }
